@@ -1,5 +1,7 @@
 #!/bin/sh
 # Build the Lean model, the proofs and the driver from files on disk (offline).
-cd "$(dirname "$0")/lean" || exit 2
+cd "$(dirname "$0")" || exit 2
+/venv/bin/python harness/extract.py || exit 2
+cd lean || exit 2
 lake build FCA driver 2>&1 | tail -5
 test -x .lake/build/bin/driver
